@@ -12,7 +12,7 @@ from ..Utilities import Terminal, _types
 # fem
 if TYPE_CHECKING:
     from ..FEM import Mesh
-from ..FEM import Operators
+from ..FEM import Operators, FeArray, MatrixType
 
 # models
 from .. import Models
@@ -121,8 +121,12 @@ class Thermal(_Simu):
             # conductivity part
             K_e = Operators.Bilinear.GradUGradV(groupElem, coef=thermalModel.k)
 
-            # reaction part
-            coef = self.rho * thermalModel.c
+            # reaction part: rho and c may be given per element or per Gauss point
+            # (aligned on (Ne, nPg) explicitly, the plain product would align an (Ne,) array with the Gauss-point axis)
+            Ne, nPg = groupElem.Ne, groupElem.Get_gauss(MatrixType.mass).nPg
+            coef = FeArray.broadcast(self.rho, Ne, nPg) * FeArray.broadcast(
+                thermalModel.c, Ne, nPg
+            )
             C_e = Operators.Bilinear.UV(groupElem, coef=coef, dof_n=1)
 
             # rescale
